@@ -61,7 +61,8 @@ type Scenario struct {
 	NilRequest   bool `json:"nil_request,omitempty"`
 	Hooks        bool `json:"hooks,omitempty"`
 	// Prior: a request call made on the same client before the one under test (state carried between calls).
-	// Kind: "success" (whole reply), "stall" (nothing arrives: ends by the read timeout), "eof", "ioerr", "partial-stall" (half the reply, then nothing)
+	// Kind: "success" (whole reply), "stall" (nothing arrives: ends by the read timeout), "eof", "ioerr", "partial-stall" (half the reply, then nothing),
+	// "nil-request" (the earlier call passes a nil request)
 	Prior string `json:"prior,omitempty"`
 	// CustomParse: network clients only: build with NewClient and a wrapped ParseResponseFunc so parser entry is observable
 	CustomParse bool `json:"custom_parse,omitempty"`
@@ -72,6 +73,10 @@ type Scenario struct {
 	// connection ("nil") or with a nil *conn wrapped in a non-nil net.Conn ("typed-nil", what `c, err := tls.Dial(..); return c, err`
 	// yields). The client is then unconnected.
 	ConnectFails string `json:"connect_fails,omitempty"`
+	// ExplicitParser (network clients built by NewTCPClientWithConfig / NewRTUClientWithConfig): the configuration names the
+	// protocol's standard response parser explicitly (ParseResponseFunc set, AsProtocolErrorFunc left nil). The client must behave
+	// exactly like one configured without it.
+	ExplicitParser bool `json:"explicit_parser,omitempty"`
 	// PriorReq: the earlier call (Prior) sends this request instead of Req
 	PriorReq *spec.Req `json:"prior_req,omitempty"`
 }
@@ -240,8 +245,14 @@ func Run(sc Scenario) (out Outcome) {
 			}
 			c = modbus.NewClient(conf)
 		case sc.Kind == TCP:
+			if sc.ExplicitParser {
+				conf.ParseResponseFunc = packet.ParseTCPResponse
+			}
 			c = modbus.NewTCPClientWithConfig(conf)
 		default:
+			if sc.ExplicitParser {
+				conf.ParseResponseFunc = packet.ParseRTUResponseWithCRC
+			}
 			c = modbus.NewRTUClientWithConfig(conf)
 		}
 		if sc.ConnectFails != "" {
@@ -286,7 +297,7 @@ func Run(sc Scenario) (out Outcome) {
 			// (the I/O error is a backstop: where an open finding makes the client wait for more bytes than the reply has, the
 			// earlier call ends with it instead of the read timeout)
 			pev = []xport.Event{{Kind: "data", N: len(full)}, {Kind: "ioerr", N: 0}}
-		case "stall":
+		case "stall", "nil-request":
 		case "partial-stall":
 			pev = []xport.Event{{Kind: "data", N: len(full) / 2}}
 		case "eof":
@@ -299,6 +310,10 @@ func Run(sc Scenario) (out Outcome) {
 		var priorResp packet.Response
 		go func() {
 			defer func() { _ = recover(); close(pch) }()
+			if sc.Prior == "nil-request" {
+				// an earlier call with a nil request (fails immediately) must leave the client usable
+				preq = nil
+			}
 			r, err := do(context.Background(), preq)
 			if err == nil && !cat.IsNilValue(r) {
 				priorResp = r
